@@ -23,7 +23,7 @@ inductive ExtQ where
   | parseip (s : Bytes)            -- net.ParseIP: 0 invalid, 1 IPv4 (To4 != nil), 2 IPv6
   | jsonvalid (s : Bytes)          -- json.Valid: 0/1
   | stat (path : Bytes)            -- os.Stat: 0 file, 1 dir, 2 error (text = err.Error())
-  | timeparse (layout val : Bytes) -- time.Parse: 1 ok, 0 error
+  | timeparse (layout val : Bytes) -- parseTimeStrict: time.Parse succeeds and Format(layout) gives the input back: 1, else 0
   | atoierr (s : Bytes)            -- text of the error strconv.Atoi returns for s
   | unescapeerr (s : Bytes)        -- text of the error url.QueryUnescape returns for s
 deriving Repr, DecidableEq, BEq
@@ -342,8 +342,7 @@ def ruleDatetime (ext : Ext) (v o f : Bytes) (tv : GoVal) : M Bytes :=
   let s1 := pickSep 1 [SP]
   let s2 := pickSep 2 [58]
   let layout := getTimeFmt 63 [s0, s1, s2]
-  -- time.Parse is lenient (one-digit hour, fractional seconds): the code also requires equal length
-  strRule v o f tv (fun s => do pure ((← timeOk ext layout s) && s.length == layout.length))
+  strRule v o f tv (timeOk ext layout)
     (b! "it is not datetime, eg: 1996" ++ s0 ++ b! "09" ++ s0 ++ b! "28" ++ s1 ++ b! "23" ++ s2 ++ b! "00" ++ s2 ++ b! "00")
 
 /-! ### `re` -/
